@@ -20,6 +20,7 @@ for l in lines:
             break
 build = ' '.join(cmd)
 build = re.sub(r'^\$\s*', '', build)
+build = re.split(r'\s&&\s|;', build)[0]
 build = re.sub(r'-o\s+\S+', '', build) + ' -o %s/demo_bin' % out
 res['demo_build'] = build
 rc, o = sh('cmake --build _build -j8 2>&1 | tail -1; ctest --test-dir _build -j8 --timeout 900 2>&1 | grep -v memory_test | grep -E "tests passed|Failed"', wt)
